@@ -383,7 +383,9 @@ func TestC03(t *testing.T) {
 			// the registered function is the one the alias table denotes; the same function used by several tokens
 			`%a()%`, `%b()%`, `%e()%`, `%b("x")%`, `%e(1)%`, `%b()%-%b()%`, `%a()%%b()%%e()%%a()%`, `%e()%:%e("again")%:%e()%`,
 			// a percent sign spelled with an escape inside a string argument
-			`%a("100\x25 sure")%`, `%todo("\x25d of \x25s")%`, `%env("VERIF_UNSET", "50\u0025")%`}
+			`%a("100\x25 sure")%`, `%todo("\x25d of \x25s")%`, `%env("VERIF_UNSET", "50\u0025")%`,
+			// the documented message of todo is its first argument
+			`%todo("first", "second")%`, `%todo("a", "b", "c")%`}
 		for _, pos := range []string{"param", "service-arg", "decorator-arg"} {
 			c03Eval(t, c03Case{Position: pos, Candidates: extras}, &q)
 		}
